@@ -168,7 +168,7 @@ fn run(run: &mut Run) {
     run.assume("cell order, rectangle corner order, rectangle-shaped polygons coming back as rectangles, None vs Some(0) angles, annotations (not exported) and instance names are not compared");
     run.assume("'No valid label location' for a library containing a named non-rectilinear polygon is the documented refusal");
     run.min_nontrivial = 200;
-    run.explore("roundtrip", run.tier.pick(300_000, 2_000_000), 900, &main_case);
+    run.explore("roundtrip", run.tier.pick(400_000, 5_000_000), 900, &main_case);
 }
 fn case(sub: &str) -> Option<Box<CaseFn<'static>>> {
     match sub {
